@@ -4,7 +4,9 @@
 // my_is_occupied words, the arena's my_exit_monitors (epoch / wait-set count / mutex), the waiters' nodes (my_is_in_list,
 // semaphore) and the wait_context of the delegated task is printed for the access-by-access replay on the Lean model EX.
 // usage: ex <rand|replay|guided> <seed | t,t,... | guide> <nruns | seed>       scenario on stdin:
-//     A <S>              the arena: task_arena(S, S)
+//     A <S> [<R>]        the arena: task_arena(S, S); with R < S: task_arena(S, R) — S-R slots are worker slots that application threads may
+//                        take too; max_allowed_parallelism is 2 and the only worker is held inside a task of another arena for the whole run, so
+//                        no worker can come and serve a delegated task (monitor-only runs: the Lean EX model is about task_arena(S, S))
 //     T <ncalls>         one line per application thread (thread 0 = the main thread, creates the arena)
 // guide (state-guided schedule; phases separated by ','):  <tid>:<cond>[+<k>]
 //   run thread <tid> alone until <cond> holds, then k more scheduling points, then the next phase; afterwards seeded
@@ -30,6 +32,7 @@
 #include "tbb/thread_data.h"
 #include "tbb/concurrent_monitor.h"
 #include <cstdio>
+#include <memory>
 #include <cstring>
 #include <sstream>
 #include <string>
@@ -38,7 +41,8 @@
 #include <vector>
 
 using namespace tbb::detail::r1;
-static int g_S = 1, g_R = 1, g_A = 1;
+static int g_S = 1, g_R = 1, g_A = 1, g_Rreq = 0;
+static std::atomic<int> g_held{0}, g_release{0};
 static std::vector<int> g_calls;
 static size_t g_N = 0;
 
@@ -46,7 +50,7 @@ static bool parse(FILE* f) {
     char line[4096];
     while (fgets(line, sizeof line, f)) {
         std::istringstream is(line); std::string w; is >> w;
-        if (w == "A") { is >> g_A; continue; }
+        if (w == "A") { is >> g_A; g_Rreq = g_A; is >> g_Rreq; if (g_Rreq < 1 || g_Rreq > g_A) g_Rreq = g_A; continue; }
         if (w != "T") continue;
         int n = 1; is >> n; g_calls.push_back(n);
     }
@@ -174,7 +178,18 @@ static bool run_once(ExSchedule& sch, long run_idx) {
         char mark; stack_mark[0] = &mark;
         tbb::task_scheduler_handle h{tbb::attach{}};
         {
-            tbb::task_arena a(g_A, (unsigned)g_A);
+            const bool hold_worker = g_Rreq < g_A;
+            std::unique_ptr<tbb::global_control> gc;
+            tbb::task_arena hold(2, 1);
+            if (hold_worker) {
+                // one worker in the whole process, and it is busy elsewhere until the end of the run
+                gc.reset(new tbb::global_control(tbb::global_control::max_allowed_parallelism, 2));
+                g_held.store(0); g_release.store(0);
+                hold.enqueue([] { g_held.store(1, std::memory_order_release); while (!g_release.load(std::memory_order_acquire)) tbb::detail::machine_pause(1); });
+                while (!g_held.load(std::memory_order_acquire)) tbb::detail::machine_pause(1);
+            }
+            struct Release { bool on; ~Release() { if (on) g_release.store(1, std::memory_order_release); } } rel{hold_worker};
+            tbb::task_arena a(g_A, (unsigned)g_Rreq);
             a.initialize();
             ta = &a;
             arena* ar = a.my_arena.load();
